@@ -14,7 +14,10 @@ namespace Cook
 
 /-- the IEEE facts as an instance argument (so that the `keeps` leaves can use them) -/
 class IeeeHypC (α : Type) [Arith α] : Prop where
+  /-- the facts of wave 6 (Lemmas/FracInv.lean) -/
   out : IeeeHyp α
+  /-- the negation of a value that is not NaN is not NaN (`find_inline_quantity` negates a literal) -/
+  neg : ∀ x : α, notNaN x → notNaN (Arith.neg x)
 
 variable {α : Type} [Arith α] [IeeeHypC α] {I : Array (Ev α) → Prop} [DiagStable I]
 
